@@ -282,6 +282,7 @@ type c08Check struct {
 	dir      string
 	verify   bool // checksum verification on (alteration family)
 	lenient  bool // refusal / short service is an accepted outcome (altered image)
+	focus    string // "" = read everything | "rdb" = only the snapshot | "aof" = only the segments
 	viol     *mc.Result
 	wedged   func(mc.Result)
 	offered  int64 // bytes offered (non-triviality)
@@ -570,11 +571,11 @@ func (c *c08Check) checkID(id string, hist int, minLeft, maxRight int64) {
 		c.fail("the reported range exceeds the bytes the source sent", "beyond-source", map[string]interface{}{"run_id": id, "sent": []int64{minLeft, maxRight}})
 		return
 	}
-	if rl >= 0 {
+	if rl >= 0 && c.focus != "aof" {
 		c.offered += rs
 		c.readSnap(st, id, hist, rl, rs)
 	}
-	if l < 0 || c.viol != nil {
+	if l < 0 || c.viol != nil || c.focus == "rdb" {
 		return
 	}
 	// segment part of the range: [al, r]
@@ -646,6 +647,12 @@ func c08ScratchRoot() string {
 
 // c08CheckImage materialises the image and reads it back (one bubble).
 func c08CheckImage(t *testing.T, im *vos.Image, rec c08Recorded, verify, lenient bool, shape string, extra map[string]interface{}) c08Outcome {
+	focus := ""
+	if shape == "altered-rdb" {
+		focus = "rdb"
+	} else if shape == "altered-aof" {
+		focus = "aof"
+	}
 	c08DirSeq++
 	dir := filepath.Join(c08ScratchRoot(), fmt.Sprintf("img%d", c08DirSeq))
 	if err := im.Materialize(dir); err != nil {
@@ -656,7 +663,7 @@ func c08CheckImage(t *testing.T, im *vos.Image, rec c08Recorded, verify, lenient
 		var out c08Outcome
 		msg := bubble(t, func() {
 			vpoll.Reset(true)
-			c := &c08Check{t: t, dir: dir, verify: verify, lenient: lenient, sigShape: shape, detail: map[string]interface{}{"image": im.Describe()}}
+			c := &c08Check{t: t, dir: dir, verify: verify, lenient: lenient, focus: focus, sigShape: shape, detail: map[string]interface{}{"image": im.Describe()}}
 			for k, v := range extra {
 				c.detail[k] = v
 			}
@@ -677,7 +684,12 @@ func c08CheckImage(t *testing.T, im *vos.Image, rec c08Recorded, verify, lenient
 					c.checkID(id, rec.idHist[id], rec.minLeft[id], rec.maxRight[id])
 				}
 			}
+			// let pollers that were parked while their reader was closed see the close and leave
 			synctest.Wait()
+			for i := 0; i < 20 && vpoll.Parked() > 0; i++ {
+				vpoll.Tick()
+				synctest.Wait()
+			}
 			if c.viol != nil {
 				out.res = *c.viol
 				return
@@ -855,7 +867,7 @@ func runC08(t *testing.T, rep *mc.Reporter) {
 		if idx%nshards != shard || budget.Expired() {
 			return
 		}
-		if scn.Family != "crash" && wedgedSeen["verify"] >= 2 {
+		if scn.Family != "crash" && !strings.HasSuffix(scn.File, ".rdb") && wedgedSeen["verify"] >= 2 {
 			// checksum verification dead-locks on every open (confirmed twice in this shard):
 			// further executions would only leak more wedged bubbles
 			rep.Count("skipped_known_deadlock_shape", 1)
